@@ -3,6 +3,11 @@
 package sfnt
 
 import (
+	"seehuhn.de/go/geom/matrix"
+	"seehuhn.de/go/postscript/cid"
+	"seehuhn.de/go/postscript/type1"
+
+	"seehuhn.de/go/sfnt/cff"
 	"seehuhn.de/go/sfnt/cmap"
 	"seehuhn.de/go/sfnt/glyf"
 	"seehuhn.de/go/sfnt/glyph"
@@ -153,6 +158,23 @@ func VerifH_C10_layout() {
 			verifReach("ligature")
 		}
 	}
+	// kerning pairs survive exactly when both glyphs are retained (a pair must never be re-targeted at other glyphs)
+	if sub.Gpos != nil {
+		for _, lt := range sub.Gpos.LookupList {
+			for _, st := range lt.Subtables {
+				if p2, ok := st.(gtab.Gpos2_1); ok {
+					want := 0
+					if has1 && has4 {
+						want = 1
+					}
+					verifAssert(len(p2) == want, "only kerning pairs among retained glyphs are kept")
+					for pair := range p2 {
+						verifAssert(pair.Left == n1 && pair.Right == n4, "kept pairs name the re-indexed glyphs")
+					}
+				}
+			}
+		}
+	}
 	if has1 && has4 {
 		seq := []glyph.Info{{GID: n1, Advance: 100}, {GID: n4, Advance: 500}}
 		verifAssert(sub.Gpos != nil && len(sub.Gpos.LookupList) == 1, "kerning lookup kept")
@@ -160,6 +182,49 @@ func VerifH_C10_layout() {
 			out := gtab.NewContext(sub.Gpos.LookupList, nil, []gtab.LookupIndex{0}).Apply(seq)
 			verifAssert(len(out) == 2 && out[0].Advance == 50, "kerning pair keeps its meaning under the new numbering")
 			verifReach("kerning")
+		}
+	}
+}
+
+// VerifH_C10_cff: subsetting a CID-keyed CFF font with several font dictionaries keeps, for every listed glyph,
+// its outline, CID, private dictionary and font matrix.
+func VerifH_C10_cff() {
+	nfd := 3
+	o := &cff.Outlines{ROS: &cid.SystemInfo{Registry: "Adobe", Ordering: "Identity"}}
+	for i := 0; i < nfd; i++ {
+		o.Private = append(o.Private, &type1.PrivateDict{BlueShift: int32(10 + i)})
+		o.FontMatrices = append(o.FontMatrices, matrix.Matrix{1, 0, 0, 1, float64(i), 0})
+	}
+	n := 5
+	fds := make([]int, n)
+	for i := 0; i < n; i++ {
+		o.Glyphs = append(o.Glyphs, &cff.Glyph{Width: float64(100 * (i + 1))})
+		o.GIDToCID = append(o.GIDToCID, cid.CID(7*i))
+		if i > 0 {
+			fd := int(verifU8("fd"))
+			verifAssume(fd < nfd)
+			fds[i] = fd
+		}
+	}
+	o.FDSelect = func(g glyph.ID) int { return fds[g] }
+	f := &Font{FamilyName: "Test", UnitsPerEm: 1000, Outlines: o}
+	list := append([]glyph.ID{0}, verifDistinctGIDs("pick", 1+verifChoose("listed", 2), 1, 4)...)
+	sub := f.Subset(list)
+	verifReach("subset")
+	so := sub.Outlines.(*cff.Outlines)
+	verifAssert(len(so.Glyphs) == len(list) && len(so.GIDToCID) == len(list), "one glyph and one CID per listed glyph")
+	if len(so.Glyphs) != len(list) || len(so.GIDToCID) != len(list) {
+		return
+	}
+	for i, g := range list {
+		verifAssert(so.Glyphs[i] == o.Glyphs[g], "glyph i of the subset is the listed glyph i")
+		verifAssert(so.GIDToCID[i] == o.GIDToCID[g], "CID kept")
+		fd := so.FDSelect(glyph.ID(i))
+		ok := fd >= 0 && fd < len(so.Private) && fd < len(so.FontMatrices)
+		verifAssert(ok, "font dictionary index in range")
+		if ok {
+			verifAssert(so.Private[fd] == o.Private[fds[g]], "private dictionary of every glyph kept")
+			verifAssert(so.FontMatrices[fd] == o.FontMatrices[fds[g]], "font matrix of every glyph kept")
 		}
 	}
 }
